@@ -63,51 +63,50 @@ def step (s : St) (op impl : String) : St × StepOut :=
         ({ gen := .none, g := {} }, { model := "nts=<draw-out-of-range>" })
   | ["peek"] =>
     match s.gen with
-    | .none => (s, { model := "skip" })
+    | .none => ({ s with g := { s.g with lastPeek := if impl == "skip" then none else iw.head?.map intOf } },
+                { model := if impl == "skip" then "skip" else "<model-diverged>" })
     | .seq g => ({ s with g := { s.g with lastPeek := iw.head?.map intOf } }, { model := s!"{g.peek}", tags := ["peek:seq"] })
     | .skip g => ({ s with g := { s.g with lastPeek := iw.head?.map intOf } },
         { model := s!"{g.peek}", tags := [if g.next = g.nextToSkip then "peek:skip" else "peek:plain"] })
   | ["pop"] =>
-    match s.gen with
-    | .none => (s, { model := "skip" })
-    | gen =>
-      let nts := (implField impl "nts=").map intOf |>.getD 0
-      let (gen', model, tags) : Gen × String × List String := match gen with
-        | .seq g => let (g', sk, pn) := g.pop; (.seq g', s!"{pn} skipped={fmtSkipped sk pn} nts=-1", ["pop:seq"])
-        | .skip g =>
-          if g.next = g.nextToSkip then
-            let d := nts - (g.next + 2) - 3
-            if ({ g with next := g.next + 2 } : SkipGen).drawOk d then
-              let (g', sk, pn) := g.pop d
-              (.skip g', s!"{pn} skipped={fmtSkipped sk pn} nts={g'.nextToSkip}",
-                ["pop:skip", if g'.period = g.period then "pop:period-capped" else "pop:period-doubled"])
-            else (.none, "<draw-out-of-range>", [])
-          else
-            let (g', sk, pn) := g.pop 0
-            (.skip g', s!"{pn} skipped={fmtSkipped sk pn} nts={g'.nextToSkip}", ["pop:plain"])
-        | .none => (.none, "skip", [])
-      -- monitors on the implementation's output
-      let ipn := iw.head?.map intOf |>.getD (-2)
-      let isk := (implField impl "skipped=").bind (fun x => if x == "-" then none else some (intOf x))
-      let gh := s.g
-      let fails :=
-        (if gh.outs.any (· ≥ ipn) then [("pn_increasing", "-", s!"pn={ipn} after {gh.outs.headD (-1)}")] else []) ++
-        (if gh.skipped.contains ipn then [("skipped_returned", "-", s!"pn={ipn} was reported skipped")] else []) ++
-        (match isk with
-          | some sk =>
-            (if gh.outs.contains sk then [("skipped_returned", "-", s!"skipped={sk} was returned before")] else []) ++
-            (if sk + 1 ≠ ipn then [("skip_flag_wrong", "-", s!"skipped={sk} pn={ipn}")] else []) ++
-            (if gh.skipped.contains (sk - 1) || gh.skipped.contains (sk + 1) then [("consecutive_skips", "-", s!"skipped={sk}")] else [])
-          | none =>
-            -- a gap without a skip report would be an unreported skip
-            (match gh.outs with
-              | last :: _ => if ipn ≠ last + 1 then [("gap_unreported", "-", s!"pn={ipn} after {last}")] else []
-              | [] => [])) ++
-        (match gh.lastPeek with
-          | some p => if p ≠ ipn then [("peek_matches_pop", "-", s!"peek={p} pop={ipn}")] else []
-          | none => [])
-      let gh' : GenGhost := { outs := ipn :: gh.outs, skipped := (match isk with | some sk => sk :: gh.skipped | none => gh.skipped), lastPeek := none }
-      ({ gen := gen', g := gh' }, { model := model, tags := tags, fails := fails })
+    if impl == "skip" && (match s.gen with | .none => true | _ => false) then (s, { model := "skip" }) else
+    let nts := (implField impl "nts=").map intOf |>.getD 0
+    let (gen', model, tags) : Gen × String × List String := match s.gen with
+      | .seq g => let (g', sk, pn) := g.pop; (.seq g', s!"{pn} skipped={fmtSkipped sk pn} nts=-1", ["pop:seq"])
+      | .skip g =>
+        if g.next = g.nextToSkip then
+          let d := nts - (g.next + 2) - 3
+          if ({ g with next := g.next + 2 } : SkipGen).drawOk d then
+            let (g', sk, pn) := g.pop d
+            (.skip g', s!"{pn} skipped={fmtSkipped sk pn} nts={g'.nextToSkip}",
+              ["pop:skip", if g'.period = g.period then "pop:period-capped" else "pop:period-doubled"])
+          else (.none, "<draw-out-of-range>", [])
+        else
+          let (g', sk, pn) := g.pop 0
+          (.skip g', s!"{pn} skipped={fmtSkipped sk pn} nts={g'.nextToSkip}", ["pop:plain"])
+      | .none => (.none, "<model-diverged>", [])
+    -- monitors on the implementation's output (ghost only: they keep running after a divergence)
+    let ipn := iw.head?.map intOf |>.getD (-2)
+    let isk := (implField impl "skipped=").bind (fun x => if x == "-" then none else some (intOf x))
+    let gh := s.g
+    let fails :=
+      (if gh.outs.any (· ≥ ipn) then [("pn_increasing", "-", s!"pn={ipn} after {gh.outs.headD (-1)}")] else []) ++
+      (if gh.skipped.contains ipn then [("skipped_returned", "-", s!"pn={ipn} was reported skipped")] else []) ++
+      (match isk with
+        | some sk =>
+          (if gh.outs.contains sk then [("skipped_returned", "-", s!"skipped={sk} was returned before")] else []) ++
+          (if sk + 1 ≠ ipn then [("skip_flag_wrong", "-", s!"skipped={sk} pn={ipn}")] else []) ++
+          (if gh.skipped.contains (sk - 1) || gh.skipped.contains (sk + 1) then [("consecutive_skips", "-", s!"skipped={sk}")] else [])
+        | none =>
+          -- a gap without a skip report would be an unreported skip
+          (match gh.outs with
+            | last :: _ => if ipn ≠ last + 1 then [("gap_unreported", "-", s!"pn={ipn} after {last}")] else []
+            | [] => [])) ++
+      (match gh.lastPeek with
+        | some p => if p ≠ ipn then [("peek_matches_pop", "-", s!"peek={p} pop={ipn}")] else []
+        | none => [])
+    let gh' : GenGhost := { outs := ipn :: gh.outs, skipped := (match isk with | some sk => sk :: gh.skipped | none => gh.skipped), lastPeek := none }
+    ({ gen := gen', g := gh' }, { model := model, tags := tags, fails := fails })
   | _ => (s, { model := "bad-op" })
 
 def main : IO Unit := run { init := ({} : St), step := step }
